@@ -139,12 +139,12 @@ func c18Template(r *R) string {
 			sb.WriteString("{{ l2|" + pick(r, []string{"first", "last"}) + "|merge({'id': 99, 'extra': 'e'})|json_encode }};{% set row = l2|first %}{% set row2 = row|merge({'n': 'changed'}) %}{{ l2|json_encode }};")
 		case 14:
 			// nested interface{}-keyed map (as YAML decoders produce) reached by dot access and by subscript
-			sb.WriteString("{{ cfg.db.host }}{{ cfg['db']['port'] }}{{ cfg.db|" + pick(r, []string{"keys|json_encode", "json_encode", "merge({'x': 1})|keys|json_encode", "length"}) + " }}{{ cfg.list|first }};")
+			sb.WriteString("{{ cfg.db.host }}{{ cfg['db']['port'] }}{{ cfg.db|" + pick(r, []string{"keys|json_encode", "keys|json_encode", "merge({'x': 1})|keys|json_encode", "merge({'x': 1})|keys|json_encode", "length", "length", "keys|sort|json_encode", "json_encode"}) + " }}{{ cfg.list|first }};")
 		case 17:
 			// structs reached by pointer whose optional parts are absent: embedded pointer nil (promoted names
 			// unreachable), nil pointer field, nil map, nil slice - reading through them must not fill them in
-			h := pick(r, []string{"hold", "hold", "hold2", "(holders|first)", "(holders|last)"})
-			sb.WriteString("{{ " + h + "." + pick(r, []string{"ID", "Slug", "Title", "Opt.Name", "Opt", "Notes.k", "Notes|default({})|keys|length", "Refs|default([])|length", "Refs|first", "BaseRec.ID", "BaseRec"}) + "|default('-') }}{% for h in holders %}{{ h." + pick(r, []string{"ID", "Slug", "Title", "Opt.Age", "Notes.x"}) + " }}{% endfor %}{{ " + h + ".ID is defined ? 'd' : 'u' }};")
+			h := pick(r, []string{"hold", "hold", "hold2", "hf", "hl"})
+			sb.WriteString("{% set hf = holders|first %}{% set hl = holders|last %}{{ " + h + "." + pick(r, []string{"ID", "Slug", "Title", "Opt.Name", "Opt", "Notes.k", "Notes|default({})|keys|length", "Refs|default([])|length", "Refs|first", "BaseRec.ID", "BaseRec"}) + "|default('-') }}{% for h in holders %}{{ h." + pick(r, []string{"ID", "Slug", "Title", "Opt.Age", "Notes.x"}) + " }}{% endfor %}{{ " + h + ".ID is defined ? 'd' : 'u' }};")
 		case 18:
 			// assignment targets that spell a path into the caller's data (this engine binds a variable of that
 			// literal name; whatever it does, the caller's nested maps are not its to write)
